@@ -282,8 +282,11 @@ fn run_src(env: &REnv, src: &str, lim: &Limits, fail_at: u64, want_value: bool) 
             } else {
                 match r {
                     Ok(v) => {
-                        if want_value {
-                            oc.v = safe_canon(&v);
+                        if want_value || touch() {
+                            let c = safe_canon(&v);
+                            if want_value {
+                                oc.v = c;
+                            }
                         }
                     }
                     Err(NErr::Throw(v, _trace)) => {
@@ -313,6 +316,11 @@ fn run_src(env: &REnv, src: &str, lim: &Limits, fail_at: u64, want_value: bool) 
     oc
 }
 
+static TOUCH: AtomicBool = AtomicBool::new(false);
+fn touch() -> bool {
+    TOUCH.load(Ordering::Relaxed)
+}
+
 fn limit(mut s: String) -> String {
     if s.len() > 300 {
         let mut cut = 300;
@@ -337,12 +345,24 @@ fn take_panic(phase: &str) -> Value {
 
 // Canonicalisation may iterate streams (which may call user code); run it under its own
 // fuel and inside catch_unwind so that it cannot hang or kill the worker.
+thread_local! {
+    static CANON_TROUBLE: StdRefCell<Option<Value>> = StdRefCell::new(None);
+}
+
 fn safe_canon(v: &Obj) -> Value {
     verif_hooks::reset(CANON_FUEL, 2000, 0);
-    match panic::catch_unwind(AssertUnwindSafe(|| canon(v, 0))) {
-        Ok(v) => v,
+    let r = panic::catch_unwind(AssertUnwindSafe(|| canon(v, 0)));
+    let st = verif_hooks::status();
+    match r {
+        Ok(v) => {
+            if st.out_of_fuel || st.too_deep {
+                CANON_TROUBLE.with(|c| *c.borrow_mut() = Some(json!({"fuel": true})));
+            }
+            v
+        }
         Err(_) => {
             let p = take_panic("canon");
+            CANON_TROUBLE.with(|c| *c.borrow_mut() = Some(json!({"panic": p.clone()})));
             json!({"canon_panic": p})
         }
     }
@@ -369,27 +389,46 @@ fn outcome_to_map(oc: Outcome, m: &mut Map<String, Value>) {
     m.insert("pd".into(), json!(oc.peak_depth));
 }
 
+fn lookup_cell<T>(env: &REnv, name: &str, f: &mut dyn FnMut(Option<&Obj>, bool) -> T) -> T {
+    // walk the scope chain; f(Some(obj), _) when found and borrowable, f(None, true) when the
+    // variable exists but is mutably borrowed, f(None, false) when absent
+    let mut cur = env.clone();
+    loop {
+        let next = {
+            let e = cell_borrow(&cur);
+            if let Some((_ty, cell)) = e.vars.get(name) {
+                return match cell.try_borrow() {
+                    Ok(o) => f(Some(&o), false),
+                    Err(_) => f(None, true),
+                };
+            }
+            match &e.parent {
+                Ok(p) => p.clone(),
+                Err(_) => return f(None, false),
+            }
+        };
+        cur = next;
+    }
+}
+
 fn observe_vars(env: &REnv, names: &[String], share: bool) -> (Value, Value) {
     let mut vars = Map::new();
     let mut sh = Map::new();
     for name in names {
-        // 0 = absent, 1 = borrowed, 2 = value
-        let mut state = 0;
-        let mut val: Option<Obj> = None;
-        {
-            let e = cell_borrow(env);
-            if let Some((_ty, cell)) = e.vars.get(name) {
-                state = 1;
-                if let Ok(o) = cell.try_borrow() {
-                    state = 2;
-                    if share {
-                        let mut acc = Vec::new();
-                        canon::sharing(&o, 0, &mut acc);
-                        sh.insert(name.clone(), Value::Array(acc));
-                    }
-                    val = Some((*o).clone());
-                };
+        let mut shv: Option<Value> = None;
+        let (state, val) = lookup_cell(env, name, &mut |o, borrowed| match o {
+            Some(o) => {
+                if share {
+                    let mut acc = Vec::new();
+                    canon::sharing(o, 0, &mut acc);
+                    shv = Some(Value::Array(acc));
+                }
+                (2, Some(o.clone()))
             }
+            None => (if borrowed { 1 } else { 0 }, None),
+        });
+        if let Some(x) = shv {
+            sh.insert(name.clone(), x);
         }
         let v = match state {
             0 => json!({"absent": true}),
@@ -424,9 +463,16 @@ fn job_eval(job: &Value, id: &str, w: &mut impl Write) -> Value {
     let observe = str_list(job.get("observe"));
     let probes = str_list(job.get("probe"));
     let fresh_each = job.get("fresh_each").and_then(|v| v.as_bool()).unwrap_or(false);
+    // child_each: the prelude runs once in a base environment and every statement runs in a new
+    // child scope of it (cheap isolation for sweeps); the base is rebuilt every `rebase_every`
+    // statements and after every panic.
+    let child_each = job.get("child_each").and_then(|v| v.as_bool()).unwrap_or(false);
+    let rebase_every = job.get("rebase_every").and_then(|v| v.as_u64()).unwrap_or(64) as usize;
     let share = job.get("share").and_then(|v| v.as_bool()).unwrap_or(false);
     let want_alloc = job.get("alloc").and_then(|v| v.as_bool()).unwrap_or(false);
     let want_value = job.get("values").and_then(|v| v.as_bool()).unwrap_or(true);
+    // touch: canonicalise results (iterating the head of lazy streams) even when values are not sent
+    TOUCH.store(job.get("touch").and_then(|v| v.as_bool()).unwrap_or(false), Ordering::Relaxed);
     let lim = Limits {
         fuel: job.get("fuel").and_then(|v| v.as_u64()).unwrap_or(1_000_000),
         max_depth: job.get("max_depth").and_then(|v| v.as_u64()).unwrap_or(3000) as usize,
@@ -459,11 +505,21 @@ fn job_eval(job: &Value, id: &str, w: &mut impl Write) -> Value {
     };
 
     let mut env = setup(&out, &mut prelude_err);
+    let mut base = env.clone();
+    let mut need_rebase = false;
     for (i, s) in stmts.iter().enumerate() {
         wa(w, id, i);
-        if fresh_each && i > 0 {
+        if fresh_each && !child_each && i > 0 {
             env = setup(&out, &mut prelude_err);
         }
+        if child_each {
+            if need_rebase || (i > 0 && i % rebase_every == 0) {
+                base = setup(&out, &mut prelude_err);
+                need_rebase = false;
+            }
+            env = Env::with_parent(&base);
+        }
+        CANON_TROUBLE.with(|c| *c.borrow_mut() = None);
         let a0 = alloc_snap();
         let oc = run_src(&env, s, &lim, if i == fail_stmt { fail_n } else { 0 }, want_value);
         let a1 = alloc_snap();
@@ -473,6 +529,9 @@ fn job_eval(job: &Value, id: &str, w: &mut impl Write) -> Value {
         let o = out.take();
         if !o.is_empty() {
             m.insert("out".into(), bytes_to_value(&o));
+        }
+        if let Some(t) = CANON_TROUBLE.with(|c| c.borrow_mut().take()) {
+            m.insert("canon_trouble".into(), t);
         }
         if want_alloc {
             m.insert("alloc".into(), alloc_delta(a0, a1));
@@ -499,7 +558,10 @@ fn job_eval(job: &Value, id: &str, w: &mut impl Write) -> Value {
         }
         let _ = writeln!(w, "E {}", Value::Object(m));
         n_events += 1;
-        if panicked && !fresh_each {
+        if panicked && child_each {
+            need_rebase = true;
+        }
+        if panicked && !fresh_each && !child_each {
             // the environment may be in an arbitrary state after an unwind: stop the history here
             break;
         }
